@@ -16,6 +16,7 @@ import ast
 import itertools
 
 from ..dataflow import defs_of, fragments, origins
+from ..facts import atoms, edge_for, facts_at, key, region
 from ..model import ancestors, unparse, walk_no_nested
 from ..selftest import V
 from ..shell import check_quoting, command_sinks
@@ -119,6 +120,35 @@ def r2(ctx):
     ctx.require(found, "C24.R2: glob result loop not found")
 
 
+def _inner_vars(f):
+    """Locals bound to `await self._get_inner_path()` (walrus or plain assignment)."""
+    out = set()
+    for n in f.body_nodes():
+        if isinstance(n, ast.NamedExpr) and "_get_inner_path" in unparse(n.value):
+            out.add(n.target.id)
+        elif isinstance(n, ast.Assign) and len(n.targets) == 1 and isinstance(n.targets[0], ast.Name) and "_get_inner_path" in unparse(n.value):
+            out.add(n.targets[0].id)
+    return out
+
+
+def _delegation(f):
+    """(test node, edge kind leading to the delegating side, inner-path variable) of the `inner path is another object`
+    test of f, however it is spelled (`!=`/`==`, negations, swapped branches, guard clause, walrus or temporary)."""
+    g = f.cfg
+    vs = _inner_vars(f)
+    for t in g.nodes.values():
+        if t.kind != "test" or t.ast is None:
+            continue
+        for v in vs:
+            def pred(atom, truth, v=v):
+                return (not truth and isinstance(atom, ast.Compare) and len(atom.ops) == 1 and isinstance(atom.ops[0], (ast.Eq, ast.Is))
+                        and {key(atom.left), key(atom.comparators[0])} == {v, "self"})
+            k = edge_for(t.ast, pred)
+            if k:
+                return t, k, v
+    return None
+
+
 def _flag_conditions(f, flag):
     """Governing condition (as an AST, polarity folded in) of every occurrence of the constant word `flag` in f."""
     out = []
@@ -141,7 +171,7 @@ def _flag_conditions(f, flag):
                     t = a.test
                 elif any(child is s for s in a.orelse):
                     t = ast.UnaryOp(op=ast.Not(), operand=a.test)
-            if t is not None and "_get_inner_path" not in unparse(t):
+            if t is not None and "_get_inner_path" not in unparse(t) and not ({x.id for x in ast.walk(t) if isinstance(x, ast.Name)} & _inner_vars(f)):
                 cond = t if cond is None else ast.BoolOp(op=ast.And(), values=[t, cond])
             child = a
         out.append(cond if cond is not None else ast.Constant(value=True))
@@ -210,8 +240,8 @@ def r3(ctx):
         sink_ids = set()
         for call, _cmd in command_sinks(f):
             sink_ids.update(g.node_containing(call))
-        tests = [n for n in g.nodes.values() if n.kind == "test" and "_get_inner_path" in n.text(200)]
-        starts = [b for t in tests for b in g.real_succ(t.id, "f")] or [g.entry]
+        dl = _delegation(f)
+        starts = g.real_succ(dl[0].id, "f" if dl[1] == "t" else "t") if dl else [g.entry]
         esc = None
         for b in starts:
             if b in sink_ids:
@@ -295,13 +325,27 @@ def r3(ctx):
 
     st = [t[1] for t in tuple_vars_from(f, lambda e: isinstance(e, ast.Call) and unparse(e.func).endswith("connector.run")) if len(t) == 2 and t[1]]
     ST = st[0] if st else "status"
-    rets = [n for n in f.body_nodes() if isinstance(n, ast.Return)]
+    rets = [n for n in f.body_nodes() if isinstance(n, ast.Return) and n.value is not None]
     ok_ret = any(
-        isinstance(r.value, ast.UnaryOp) and isinstance(r.value.op, ast.Not) and unparse(r.value.operand) == ST
-        for r in rets
+        isinstance(o, ast.UnaryOp) and isinstance(o.op, ast.Not) and unparse(o.operand) == ST
+        for r in rets for o in origins(f, r.value)
     )
-    raises = [n for n in f.body_nodes() if isinstance(n, ast.If) and any(isinstance(x, ast.Raise) for b in n.body for x in ast.walk(b))]
-    ok_raise = any(unparse(n.test) in (f"{ST} > 1", f"{ST} >= 2", f"1 < {ST}") for n in raises)
+    # a raise that is reached exactly when the status is greater than 1 (however the test is spelled)
+    g = f.cfg
+
+    def _gt1(atom, truth):
+        if not (isinstance(atom, ast.Compare) and len(atom.ops) == 1):
+            return False
+        l, op, r = unparse(atom.left), atom.ops[0], unparse(atom.comparators[0])
+        if l == ST:
+            return (truth and ((isinstance(op, ast.Gt) and r == "1") or (isinstance(op, ast.GtE) and r == "2"))) or \
+                   (not truth and ((isinstance(op, ast.LtE) and r == "1") or (isinstance(op, ast.Lt) and r == "2")))
+        if r == ST:
+            return (truth and ((isinstance(op, ast.Lt) and l == "1") or (isinstance(op, ast.LtE) and l == "2"))) or \
+                   (not truth and ((isinstance(op, ast.GtE) and l == "1") or (isinstance(op, ast.Gt) and l == "2")))
+        return False
+
+    ok_raise = any(n.kind == "raise_stmt" and any(_gt1(a, v) for a, v in facts_at(g, n.id)) for n in g.nodes.values())
     ctx.ob("R3", "_test returns `not status`", ok_ret, func=f, node=f.node, instance="_test:ret")
     ctx.ob("R3", "_test raises for status > 1", ok_raise, func=f, node=f.node, instance="_test:raise")
 
@@ -310,36 +354,30 @@ def r4(ctx):
     """Delegation idiom: `if (inner := await self._get_inner_path()) != self: inner.<same>(all params)`."""
     p = ctx.prog
     for f in _methods(ctx):
-        for n in f.body_nodes():
-            if not isinstance(n, ast.If):
-                continue
-            t = n.test
-            if not (
-                isinstance(t, ast.Compare)
-                and isinstance(t.left, ast.NamedExpr)
-                and "_get_inner_path" in unparse(t.left.value)
-            ):
-                continue
-            var = t.left.target.id
-            ok_cmp = len(t.ops) == 1 and isinstance(t.ops[0], ast.NotEq) and unparse(t.comparators[0]) == "self"
-            calls = [
-                c
-                for b in n.body
-                for c in ast.walk(b)
-                if isinstance(c, ast.Call)
-                and isinstance(c.func, ast.Attribute)
-                and isinstance(c.func.value, ast.Name)
-                and c.func.value.id == var
-            ]
-            same = [c for c in calls if c.func.attr == f.name]
+        has_inner = any("_get_inner_path" in unparse(c.func) for c in f.calls())
+        if not has_inner:
+            continue
+        dl = _delegation(f)
+        for _once in [0]:
+            n = f.node
+            ok_cmp = dl is not None
+            same = []
+            if dl is not None:
+                t, k, var = dl
+                g = f.cfg
+                n = t.ast
+                for nid in region(g, t.id, k):
+                    for c in g.nodes[nid].calls():
+                        if isinstance(c.func, ast.Attribute) and isinstance(c.func.value, ast.Name) and c.func.value.id == var and c.func.attr == f.name:
+                            same.append(c)
             params = [a for a in f.params if a != "self"]
             forwarded = set()
             for c in same:
                 for a in c.args:
                     forwarded |= {x.id for x in ast.walk(a) if isinstance(x, ast.Name)}
-                for k in c.keywords:
-                    forwarded |= {x.id for x in ast.walk(k.value) if isinstance(x, ast.Name)}
-                    if k.arg is None:
+                for k_ in c.keywords:
+                    forwarded |= {x.id for x in ast.walk(k_.value) if isinstance(x, ast.Name)}
+                    if k_.arg is None:
                         forwarded |= set(params)
             missing = [a for a in params if a not in forwarded]
             ctx.ob(
